@@ -49,16 +49,25 @@ def cases(tier, seed):
     prev_ws = {"ws": [["old", {"kind": "data", "obj": rand_obj(rng, nd=1, hist=0, dtype="i8")}]]}
     out = []
     faults = [("none", o)] + fault_positions(o)
-    nform = 0
+    nform = {True: 0, False: 0}
     for label, m in faults:
         for prev in (None, prev_single, prev_ws, {"other": 1}, {"other": 2}):
             for ow in (True, False):
                 # the option is given as a keyword, positionally, or (for "do not overwrite") left out — in rotation, so that
                 # calls that name it and calls that rely on the default follow one another in one process
-                nform += 1
-                form = ("kw", "omitted", "positional", "kw-int", "kw-npbool", "kw-none")[nform % 6]
+                # (separate rotations for "overwrite" and "do not overwrite": every form meets both values, and the forms that
+                # exist only for "do not overwrite" — left out, None — are really used)
+                nform[ow] += 1
+                form = (("kw", "omitted", "positional", "kw-int", "kw-npbool", "kw-none")[nform[ow] % 6] if not ow
+                        else ("kw", "positional", "kw-int", "kw-npbool")[nform[ow] % 4])
                 out.append(dict({"single": m, "prev": prev, "overwrite": ow, "label": "obj:" + label},
                                 **({} if form == "kw" else {"owform": form})))
+    # the fault-free object with EVERY form of the option against every previous state (a refused save must be refused however
+    # the caller spells "do not overwrite", a requested one carried out however "overwrite" is spelled)
+    for prev in (None, prev_single, prev_ws, {"other": 1}, {"other": 2}):
+        for ow, forms in ((False, ("kw", "omitted", "positional", "kw-int", "kw-npbool", "kw-none")), (True, ("kw", "positional", "kw-int", "kw-npbool"))):
+            for form in forms:
+                out.append(dict({"single": o, "prev": prev, "overwrite": ow, "label": "obj:none"}, **({} if form == "kw" else {"owform": form})))
     # workspace entries: fault in the k-th entry (data object or plain dict)
     for k in range(3):
         for kind in ("data", "dict"):
